@@ -227,8 +227,39 @@ func (cb *caseBuilder) genMergePlan(class string, withRebuild bool) (final int, 
 		in.Seg = l
 		ins = append(ins, in)
 	}
+	// sometimes the same segment takes part twice (a self-merge: its documents appear twice, each
+	// occurrence with its own deletions)
+	if len(ins) >= 1 && r.Chance(1, 9) {
+		dup := genDrops(r, cb.n[ins[0].Seg])
+		dup.Seg = ins[0].Seg
+		ins = append(ins, dup)
+	}
 	m, api := mergeMode(r)
 	final = cb.addMerge(ins, m, api, bufSize(r))
+	// sometimes a further generation: the result merged again, alone, with one of its own inputs,
+	// or with itself, again with deletions
+	if r.Chance(1, 6) {
+		a := genDrops(r, cb.n[final])
+		a.Seg = final
+		next := []MergeIn{a}
+		switch r.Intn(3) {
+		case 0:
+			b := genDrops(r, cb.n[leaves[0]])
+			b.Seg = leaves[0]
+			if r.Chance(1, 2) {
+				next = append(next, b)
+			} else {
+				next = append([]MergeIn{b}, next...)
+			}
+		case 1:
+			b := genDrops(r, cb.n[final])
+			b.Seg = final
+			next = append(next, b)
+		}
+		m2, api2 := mergeMode(r)
+		final = cb.addMerge(next, m2, api2, bufSize(r))
+		m = m2
+	}
 	rebuild = -1
 	if withRebuild && locsValid(cb.docs[final]) {
 		// the survivors as one batch, rebuilt directly (C02's reference); only when the
@@ -271,6 +302,9 @@ func genC02(tier string, seed uint64) []genOut {
 		cb.q("mergen", itoa(final))
 		if rebuild >= 0 {
 			cb.same(final, rebuild, "rebuild")
+		}
+		if cb.n[final] > 0 {
+			cb.iterQueries(final, 8) // Next / Advance scripts: merged segments hold 1-hit lists
 		}
 		nt := cb.n[final] > 0 && len(cb.c.Segs[final].Ins) > 1
 		out = append(out, genOut{cb.c, nt, class})
@@ -656,7 +690,14 @@ func genC07(tier string, seed uint64) []genOut {
 				for _, x := range p {
 					if r.Chance(2, 3) {
 						req = append(req, fs[x])
+						if r.Chance(1, 6) {
+							req = append(req, fs[x]) // the same field twice
+						}
 					}
+				}
+				if r.Chance(1, 5) {
+					req = append(req, []byte("nosuchfield"))
+					req = append(req, fs[p[0]])
 				}
 				var order []int
 				switch r.Intn(4) {
@@ -885,6 +926,7 @@ func genC13(tier string, seed uint64) []genOut {
 		}
 		out = append(out, genOut{cb.c, true, class})
 	}
+	out = append(out, genSparseDV("C13", seed, 2, false, false)...)
 	return out
 }
 
